@@ -71,9 +71,18 @@ JudgeValue(dt, e, payload, prev) ==
             ELSE IF ~e.real_ok THEN "rebuilt.disagrees"
             ELSE ""
 
+(* "describe <module>" / "describe <module>:<accessible>": the part of the structure report, *)
+(* for described names only; e.same: the reply is identical to that part of the full report   *)
+JudgeDescribe(desc, e) ==
+  LET req == e.req IN
+  IF req.mod \in DOMAIN desc /\ (req.name = "" \/ req.name \in DOMAIN desc[req.mod])
+  THEN (IF e.cls = "ok" /\ e.same THEN "" ELSE "describe.part")
+  ELSE (IF e.cls \in NoSuch THEN "" ELSE "undescribed.reachable")
+
 Judge(desc, e) ==
   LET req == e.req IN
-  IF ~Known(desc, req) THEN (IF e.cls \in NoSuch THEN "" ELSE "undescribed.reachable")
+  IF req.act = "describe" THEN JudgeDescribe(desc, e)
+  ELSE IF ~Known(desc, req) THEN (IF e.cls \in NoSuch THEN "" ELSE "undescribed.reachable")
   ELSE IF req.act = "activate"
        THEN (IF e.cls \in NoSuch /\ (req.name = "" \/ desc[req.mod][req.name].kind = "param") THEN "described.unreachable" ELSE "")
   ELSE LET d == desc[req.mod][DName(req)] IN
@@ -139,7 +148,7 @@ Variants == <<[feats |-> <<>>, base |-> "Module"],
               [feats |-> <<F("HasOffset", "direct"), F("VFeatB", "direct")>>, base |-> "Module"],
               [feats |-> <<>>, base |-> "Drivable"]>>
 
-(* the describe record d = [desc, expect |-> [m |-> [wires, iface, features, units]], iface, features, units, *)
+(* the describe record d = [desc, expect |-> [m |-> [wires, iface, features, units, props]], iface, features, units, props, node, expnode, *)
 (*                          stable, strict, expdesc (Null if not known)]                         *)
 Structure(d) ==
   IF ~d.strict THEN "StrictJSON"
@@ -149,6 +158,10 @@ Structure(d) ==
   ELSE IF \E m \in DOMAIN d.desc : d.iface[m] # d.expect[m].iface THEN "InterfaceClassMatches"
   ELSE IF \E m \in DOMAIN d.desc : d.features[m] # d.expect[m].features THEN "FeaturesMatch"
   ELSE IF \E m \in DOMAIN d.desc : d.units[m] # d.expect[m].units THEN "MainUnitSubstituted"
+  \* node level: exactly modules, equipment_id, firmware, description and the custom (underscore) node properties,
+  \* with the configured values; module and accessible level: description, group, visibility, meaning as configured
+  ELSE IF d.node # d.expnode THEN "NodeProperties"
+  ELSE IF \E m \in DOMAIN d.desc : d.props[m] # d.expect[m].props THEN "PropertiesMatch"
   ELSE IF d.expdesc # Null /\ d.expdesc # d.desc THEN "DescriptionFaithful"
   ELSE ""
 
